@@ -269,7 +269,7 @@ class ExecBase:
     # ---------------------------------------------------------------------------------------------
     def alloc(self, st: State) -> Tuple[Any, State]:
         st = st.copy()
-        ref = ALLOC0 + st.nalloc
+        ref = st.alloc_ptr()
         st.nalloc += 1
         return ref, st
 
@@ -380,7 +380,7 @@ class ExecBase:
         if isinstance(v, (VRef, VEnum, VUnion)):
             st = st.assume(self.type_constraint(v))
         if isinstance(v, (VList, VDict)):
-            st = st.assume(self.term_of(v) < ALLOC0 + st.nalloc)
+            st = st.assume(self.term_of(v) < st.alloc_ptr())
         return v, st
 
     def dict_write(self, d: VDict, k: V, v: V, st: State) -> State:
@@ -584,7 +584,7 @@ class ExecBase:
         if k == "refu":
             st = st.assume(term > 0, term < ALLOC0, z3.Or([g for g, _ in v.alts]))
         if k in ("list", "dict"):
-            st = st.assume(term < ALLOC0 + st.nalloc)   # a stored container exists already (never a not-yet-allocated address)
+            st = st.assume(term < st.alloc_ptr())   # a stored container exists already (never a not-yet-allocated address)
         return v, st
 
     def write_field(self, ref: VRef, definer: type, attr: str, val: V, st: State) -> State:
